@@ -22,7 +22,7 @@ RULE = ('one evaluation = one seeded simulated run of 2-4 contenders (threads sh
         'acquire; distinct = SHA-256 of the seam event log')
 ASSUMPTIONS = ['polling acquire loops (1 ms virtual sleeps) are run with critical sections of at most a few virtual milliseconds',
                'lock keys carry no expiry in this check']
-PROBES = ('contended_acquire', 'nested_rlock', 'bad_release_refused', 'lock_wait', 'barrier_calls', 'with_statement', 'cs_raised', 'barrier_mixed_with_primitive', 'fresh_handles')
+PROBES = ('contended_acquire', 'nested_rlock', 'bad_release_refused', 'lock_wait', 'barrier_calls', 'with_statement', 'cs_raised', 'barrier_mixed_with_primitive', 'fresh_handles', 'json_disk')
 TECHNIQUE = 'deterministic simulation: seeded schedules of contenders with virtual-time polling; holder-count witness invariant checked at every critical-section entry; bounded-progress check'
 LEVEL_TEXT = ('seeded exploration of contender interleavings at seam granularity (and source lines for shared objects) with a witness '
               'invariant (holders <= 1, <= value for the semaphore, re-entrancy only by the owner) evaluated during the run, plus '
@@ -53,6 +53,7 @@ def gen_case(seed, tier):
     # barrier: contenders call two DIFFERENT functions wrapped under one barrier name, and (in some runs) the last contender
     # uses the primitive itself on that name - all of them are one exclusion group
     cfg['barrier_mix'] = rng.random() < 0.4
+    cfg['json_disk'] = rng.random() < 0.2      # the primitives keep their state as cache values: any Disk must do
     # 'handles': every acquire and every release goes through a fresh Lock / RLock / BoundedSemaphore object on the same key -
     # the state lives in the cache, the objects are interchangeable handles that may be dropped at any time
     cfg['style'] = [rng.choice(('explicit', 'with', 'handles')) for _ in range(n)]
@@ -78,10 +79,14 @@ def run_case(case):
         dc = world.dc
         path = world.path('c')
 
+        disk_kw = {'disk': dc.JSONDisk} if cfg.get('json_disk') else {}
+        if disk_kw:
+            probes['json_disk'] = 1
+
         def make_cache():
             if cfg['target'] == 'fanout':
-                return dc.FanoutCache(path, shards=cfg['shards'], eviction_policy='none')
-            return dc.Cache(path, eviction_policy='none')
+                return dc.FanoutCache(path, shards=cfg['shards'], eviction_policy='none', **disk_kw)
+            return dc.Cache(path, eviction_policy='none', **disk_kw)
 
         main = make_cache()
         kind = cfg['kind']
@@ -319,7 +324,7 @@ def run_case(case):
                 if pk == 'lock':
                     is_free = state == '<absent>'
                 elif pk == 'rlock':      # (last owner, 0)
-                    is_free = state == '<absent>' or (isinstance(state, tuple) and len(state) == 2 and state[1] == 0)
+                    is_free = state == '<absent>' or (isinstance(state, (tuple, list)) and len(state) == 2 and state[1] == 0)
                 else:
                     is_free = state in ('<absent>', cfg['value'])
                 if not is_free:
